@@ -134,11 +134,14 @@ def findInst (st : RSt) (h : Nat) : Option Nat := st.stored.find? fun id => heig
 
 /-- `InstanceContainer.addNewInstance`: sorted by height (highest first), fixed capacity; a new lowest instance is
     dropped when the container is full, otherwise the last one is ejected -/
+def insertIdx (st : RSt) (h : Nat) : Nat :=
+  match st.stored.findIdx? (fun e => heightOf st e < h) with
+  | some i => i
+  | none => st.stored.length
+
 def addNewInstance (st : RSt) (id : Nat) (h : Nat) : List Nat :=
   let cap := Gen.ctrl_InstanceContainerDefaultCapacity
-  let idx := match st.stored.findIdx? (fun e => heightOf st e < h) with
-    | some i => i
-    | none => st.stored.length
+  let idx := insertIdx st h          -- first stored instance with a lower height, else the end
   if idx = st.stored.length then
     if st.stored.length < cap then st.stored ++ [id] else st.stored
   else if st.stored.length = cap then
@@ -320,11 +323,21 @@ def runningDecided (st : RSt) : Bool :=
       | none => false
   | none => false
 
-/-- `baseConsensusMsgProcessing` followed by the role's `ProcessConsensus` -/
-def processCons (st : RSt) (c : ConsIn) : RSt × Bool × List Ev :=
+/-- the running duty already took a decided value (`State.DecidedValue != nil`) -/
+def dutyDecided (st : RSt) : Bool :=
+  match st.duty with
+  | some d => !d.finished && d.decidedValue.isSome
+  | none => false
+
+/-- `prevDecided` of `baseConsensusMsgProcessing` since fix c50569811: the running instance object is decided OR the duty
+    already holds a decided value (the controller may have dropped the instance and report a first decision again) -/
+def prevDecided (st : RSt) : Bool := runningDecided st || dutyDecided st
+
+/-- `baseConsensusMsgProcessing` followed by the role's `ProcessConsensus`, for a given value `pd` of `prevDecided` -/
+def processConsG (pd : Bool) (st : RSt) (c : ConsIn) : RSt × Bool × List Ev :=
   if !st.role.hasConsensus then (st, false, [])                -- "no consensus phase for …"
   else
-    let prevDecided := runningDecided st
+    let prevDecided := pd
     let (st1, out) := ctlProcess st c
     match out with
     | .err => (st1, false, [])
@@ -347,6 +360,13 @@ def processCons (st : RSt) (c : ConsIn) : RSt × Bool × List Ev :=
                 let st3 := { st2 with duty := some { d with decidedValue := some v } }
                 if !v.getOk then (st3, false, [])
                 else (st3, true, signAll (.decided h) v.objs v.slot st.role.postDomain ++ [.bcast v.objs])
+
+/-- consensus message, current code -/
+def processCons (st : RSt) (c : ConsIn) : RSt × Bool × List Ev := processConsG (prevDecided st) st c
+
+/-- consensus message BEFORE fix c50569811 (`prevDecided` looked at the runner's own instance object only); kept for the
+    regression lemma `C03_at_most_once_old_refuted` -/
+def processConsOld (st : RSt) (c : ConsIn) : RSt × Bool × List Ev := processConsG (runningDecided st) st c
 
 /-- `RunningInstance.IsDecided()` as `ValidatePostConsensusMsg` reads it: the decided value of the running instance OBJECT -/
 def runningInstValue (st : RSt) (d : DutySt) : Option Val :=
@@ -382,6 +402,15 @@ def step (st : RSt) : In → RSt × Bool × List Ev
   | .post m slot => processPost st m slot
   | .foreign => (st, false, [])
 
+/-- one input, code before fix c50569811 -/
+def stepOld (st : RSt) : In → RSt × Bool × List Ev
+  | .cons c => processConsOld st c
+  | i => step st i
+
+def runOld : RSt → List In → List (In × List Ev)
+  | _, [] => []
+  | st, i :: is => (i, (stepOld st i).2.2) :: runOld (stepOld st i).1 is
+
 def run : RSt → List In → List (In × List Ev)
   | _, [] => []
   | st, i :: is => (i, (step st i).2.2) :: run (step st i).1 is
@@ -405,10 +434,13 @@ def In.quiet (role : Role) : In → Bool
   | .pre .. => role == .attester || role == .syncCommittee
   | .start .. => false
 
-/-- the post-consensus signatures of a trace, as (height of the decision, signed root) -/
-def decidedSigns (tr : List (In × List Ev)) : List (Nat × Nat) :=
-  (tr.flatMap (·.2)).filterMap fun e => match e with
+/-- the post-consensus signatures among the outputs of one input, as (height of the decision, signed root) -/
+def evSigns (evs : List Ev) : List (Nat × Nat) :=
+  evs.filterMap fun e => match e with
     | .sign (.decided h) root _ _ => some (h, root)
     | _ => none
+
+/-- the post-consensus signatures of a trace -/
+def decidedSigns (tr : List (In × List Ev)) : List (Nat × Nat) := tr.flatMap fun p => evSigns p.2
 
 end Ssv.Runner
